@@ -253,7 +253,10 @@ pub fn operation(p: &mut Parser<'_>, mut skip: Skip) -> Result<Option<Skip>> {
         p.close_at(&last, OPERATION)?;
     }
 
-    return Ok(Some(skip));
+    // The blanks counted before the first operand or after the last operator
+    // have been consumed by now, what is pending are the blanks that follow
+    // the last operand.
+    return Ok(Some(p.count_skip()));
 
     fn operand(
         p: &mut Parser<'_>,
